@@ -28,6 +28,9 @@ import re
 # ('other', text)
 
 
+SITE_NAMES = {}
+
+
 def is_const(e, val=None):
     if e[0] != 'const':
         return False
@@ -151,6 +154,9 @@ def show(e, depth=0):
     if k == 'len':
         return 'len(%s)' % show(e[1], d)
     if k == 'call':
+        nm = SITE_NAMES.get(e[3])
+        if nm and depth > 0:
+            return nm
         return '%s(%s)' % (short(e[1]), ', '.join(show(a, d) for a in e[2]))
     if k == 'agg':
         return '%s{%s}' % (e[1], ', '.join(show(a, d) for a in e[2]))
@@ -391,10 +397,11 @@ class Fn:
             return rec
         # boolean switch: label '0' = false edge, 'else' = true edge
         truth = None
-        if labels == frozenset(['else']) and all(x[0] == '0' for x in t['targets']):
-            truth = True
-        elif labels == frozenset(['0']):
-            truth = False
+        if len(t['targets']) == 1 and t['targets'][0][0] == '0':
+            if labels == frozenset(['else']):
+                truth = True
+            elif labels == frozenset(['0']):
+                truth = False
         e = d
         # peel Not
         while e[0] == 'un' and e[1] == 'Not' and truth is not None:
@@ -535,6 +542,8 @@ class Fn:
             callee = self.operand_expr(c['indirect'], bi, depth + 1)
             path = 'indirect:' + show(callee)
         args = tuple(self.operand_expr(a, bi, depth + 1) for a in t['args'])
+        if not t['dest']['p'] and self.names.get(t['dest']['l']):
+            SITE_NAMES[(self.name, bi)] = self.names[t['dest']['l']]
         return ('call', path, args, (self.name, bi))
 
     def operand_expr(self, o, at=None, depth=0):
